@@ -46,6 +46,10 @@ PROPS = {
     "C15": dict(lean=["Orda.Props.C15"], rule="non-trivial: history with failing calls, rollbacks or remote deliveries between local operations; grid slice: every (lamport, delimiter) pair of the grid",
                 slices=[S("ids", 300, 5000, ["corr", "seq_gapless", "no_panic"]), S("hashgrid", 1, 4, ["corr", "hash_unique"])],
                 assumptions=REPLICA_ASSUMPTIONS),
+    "C05": dict(lean=["Orda.Props.C05"], rule="non-trivial: ≥2 clients pushed operations to one datatype through the real service and every client synced to quiescence; entry modes create/subscribe/subscribe-or-create and late subscribers occur; distinct command sequences",
+                slices=[S("svc", 90, 1400, ["corr", "sconverge", "loginv", "no_panic"])], assumptions=SERVICE_ASSUMPTIONS),
+    "C07": dict(lean=["Orda.Props.C07"], rule="non-trivial: the case contains ≥1 message fault (duplicate request, dropped response, response applied after later exchanges) on a datatype that ≥2 clients push to; distinct command sequences",
+                slices=[S("fault", 90, 1400, ["corr", "sconverge", "loginv", "no_panic"])], assumptions=SERVICE_ASSUMPTIONS),
     "C06": dict(lean=["Orda.Props.C06"], rule="non-trivial: ≥2 clients pushed to the same datatype and at least one request was a re-push, an empty push or came after other clients' pushes; store dumped and checked after EVERY request; distinct command sequences",
                 slices=[S("svclog", 60, 900, ["corr", "loginv", "no_panic"]), S("mut", 60, 900, ["corr", "loginv", "refused_noop"])], assumptions=SERVICE_ASSUMPTIONS),
     "C13": dict(lean=["Orda.Props.C13"], rule="non-trivial: a case exercises ≥2 entry modes on one key, or a refusal (create on existing / subscribe to missing / other type); distinct command sequences",
@@ -84,6 +88,8 @@ def nontrivial(pid, case):
         syncs = [ln for ln, _ in case if ln.get("k") == "sync"]
         pushers = set(ln.get("c") for ln in syncs if any((p or {}).get("ops") for p in ln.get("obs", {}).get("req", []) or []))
         refused = [ln for ln in syncs if ln.get("obs", {}).get("rpc") or any(((p or {}).get("opt", 0) & 32) for p in (ln.get("obs", {}).get("resp") or []))]
+        if pid == "C07":
+            return any(ln.get("fault") for ln in syncs) and len(pushers) >= 2
         if pid in ("C16",):
             return bool(refused) and len(syncs) > len(refused)
         if pid == "C17":
